@@ -3,7 +3,11 @@
    (None = an exception, a SyntaxError at import, or not exactly one request). *)
 From PG Require Import Lib.Strs Corr.Driver Model.Wire.
 
-Definition input := (list (str * str) * op * args)%type.
+(* the operation comes with its path-level and operation-level parameter lists; the loader's merge is part of
+   the model (Wire.merge_params) *)
+Definition input := (list (str * str) * (list param * list param) * op * args)%type.
+Definition op_of (c : input) : op :=
+  let '(_, (pl, ol), o, _) := c in with_params o (merge_params pl ol).
 Definition obs := option request.
 
 Definition kv_eqb := list_eqb (pair_eqb str_eqb str_eqb).
@@ -30,9 +34,9 @@ Definition on_wire (r : request) : request :=
      r_cookies := r_cookies r; r_ctype := r_ctype r; r_body := r_body r |}.
 
 Definition model_obs (c : input) : obs :=
-  let '(tbl, o, a) := c in option_map on_wire (call (mn_of tbl) o a).
-(* bits 1..6: the guards of C04_partial (F04b, F04c, F04d, F04f, F04i, F04k); bit 7: the call is NOT well typed (outside the theorem) *)
+  let '(tbl, _, _, a) := c in option_map on_wire (call (mn_of tbl) (op_of c) a).
+(* bits 1..4: the guards of C04_partial (F04j, F04c, F04d, F04k); bit 5: the call is NOT well typed (outside the theorem) *)
 Definition guards_of (c : input) : list bool :=
-  let '(tbl, o, a) := c in guards (mn_of tbl) o a ++ [well_typed (mn_of tbl) o a].
+  let '(tbl, _, _, a) := c in guards (mn_of tbl) (op_of c) a ++ [well_typed (mn_of tbl) (op_of c) a].
 
 Definition run (cases : list (input * obs)) : list N := report obs_eqb model_obs guards_of cases.
